@@ -433,3 +433,52 @@ Theorem name_collision_refuted :
   Run.C02.self_check w_f2b = 2.
 Proof. split; vm_compute; reflexivity. Qed.
 Print Assumptions name_collision_refuted.
+
+(* ---- "computed over the completed fixpoint of everything the body depends on"
+   (strengthened after seeding, notes/C02.md). Evaluation by strata gives that guarantee
+   only if every body predicate of an aggregating rule is complete - strictly lower in the
+   evaluation order - before the rule's head, while a plain positive dependency may stay
+   level. When an aggregation (or negation) edge lies on a dependency cycle
+   (agg_in_cycle, the reachability form of the component test of analysis.Stratify) NO
+   assignment of levels does that, for any program: such a program has to be refused, and
+   an evaluation of it cannot have aggregated over a completed relation. The check
+   (runner c02cyc, Run.C02.judge_cyc) takes agg_in_cycle as the verdict's premise. *)
+From Coq Require Import Lia.
+From MV Require Import Datalog.AggCycle Datalog.AggCycleProofs.
+
+Theorem agg_cycle_not_stratifiable :
+  forall (P : list rule) (lvl : Z -> Z),
+    agg_in_cycle P = true ->
+    (forall h p s, In (h, p, s) (dep_edges P) -> lvl p <= lvl h) ->
+    (forall h p, In (h, p, true) (dep_edges P) -> lvl p < lvl h) ->
+    False.
+Proof.
+  intros P lvl Hc Hmono Hstrict.
+  apply (strict_in_cycle_no_levels (dep_edges P) lvl Hc).
+  - intros [[h p] s] Hin. exact (Hmono h p s Hin).
+  - intros [[h p] s] Hin Hs. cbn in Hs. subst s. exact (Hstrict h p Hin).
+Qed.
+Print Assumptions agg_cycle_not_stratifiable.
+
+(* the hypotheses are satisfiable one by one: cnt(N) :- q(X) |> do group_by(), N = count();
+   q(Y) :- cnt(N), Y = N + 100; q(X) :- base(X)  (ids: cnt 1, q 2, base 3) has the cycle;
+   without the rule q :- cnt it has none and lvl = id with cnt above q is a level
+   assignment. *)
+Definition cyc_cnt : rule :=
+  mkRule (mkClause (mkAtom 1 [TVar 1]) [PAtom (mkAtom 2 [TVar 2])] []) (Some (mkDo [] [DReduce 1 RCount []])) [].
+Definition cyc_q_base : rule := plain (mkClause (mkAtom 2 [TVar 1]) [PAtom (mkAtom 3 [TVar 1])] []).
+Definition cyc_q_cnt : rule :=
+  plain (mkClause (mkAtom 2 [TVar 2]) [PAtom (mkAtom 1 [TVar 1]); PEq (TVar 2) (TApp FPlus [TVar 1; TConst (CNum 100)])] []).
+
+Example agg_cycle_example :
+  agg_in_cycle [cyc_q_base; cyc_q_cnt; cyc_cnt] = true /\
+  agg_in_cycle [cyc_q_base; cyc_cnt] = false /\
+  (let lvl := fun p => if p =? 1 then 2 else if p =? 2 then 1 else 0 in
+   (forall h p s, In (h, p, s) (dep_edges [cyc_q_base; cyc_cnt]) -> lvl p <= lvl h) /\
+   (forall h p, In (h, p, true) (dep_edges [cyc_q_base; cyc_cnt]) -> lvl p < lvl h)).
+Proof.
+  split; [vm_compute; reflexivity|]. split; [vm_compute; reflexivity|].
+  split.
+  - intros h p s Hin. cbn in Hin. destruct Hin as [H | [H | []]]; inversion H; subst; cbn; lia.
+  - intros h p Hin. cbn in Hin. destruct Hin as [H | [H | []]]; inversion H; subst; cbn; lia.
+Qed.
